@@ -102,7 +102,10 @@ FamMx(w12, maxBad) ==
                     CASE p = "p1" -> ALit("int", "5")
                       [] p = "p2" -> APat(<<CFn("todo", "")>>)
                       [] p = "p3" -> ARef(PName(w[1]))                                  \* single chunk
-                      [] OTHER   -> APat(<<CText("a"), CPct, CRef(PName(w[2])), CText("b")>>)],  \* after %%, multi
+                      \* after %% and a literal that reads like a name, multi: "a%%zz%p1%b" refers to p1 and not to zz; the literal is
+                      \* an undeclared name when the reference is fine and a declared one when it dangles (C06-r7-m1 paired the
+                      \* delimiters with a regular expression over the raw text instead of using the chunker's tokens)
+                      [] OTHER   -> APat(<<CText("a"), CPct, CText(IF w[2] = "ok" THEN "zz" ELSE "p1"), CRef(PName(w[2])), CText("b")>>)],
       !.services = [s \in {"s1", "s2", "s3"} |->
                     CASE s = "s1" ->
                           \* a service given by a value has no constructor arguments; its calls and fields are checked all the same
